@@ -1148,6 +1148,16 @@ def main():
         write_if_changed(os.path.join(outdir, 'AllocSites.v'), '(* allocsites.py failed: %s *)\nFrom BS Require Import Word.\nDefinition allocsites_translation_failed : True := I.\n' % p.stdout.strip().replace('*)', '* )'))
     else:
         units.append(('AllocSites', alloc_rs, None, ()))
+    # the window arithmetic of FixedBumpVec::split_off, cut out branch by branch by tools/splitsites.py
+    split_rs = os.path.join(os.path.dirname(cap_rs), 'splitsites.rs')
+    p = subprocess.run([sys.executable, os.path.join(os.path.dirname(os.path.abspath(__file__)), 'splitsites.py'), repo, split_rs, os.path.join(outdir, 'SplitFacts.v')],
+                       stdout=subprocess.PIPE, stderr=subprocess.STDOUT, text=True)
+    print(p.stdout.strip())
+    if p.returncode != 0:
+        rc = 2
+        write_if_changed(os.path.join(outdir, 'SplitSites.v'), '(* splitsites.py failed: %s *)\nFrom BS Require Import Word.\nDefinition splitsites_translation_failed : True := I.\n' % p.stdout.strip().replace('*)', '* )'))
+    else:
+        units.append(('SplitSites', split_rs, None, ()))
     for name, path, only, skip in units:
         try:
             u = Unit(name, path if os.path.isabs(path) else os.path.join(repo, path), only, skip)
